@@ -1100,6 +1100,7 @@ QUICK_PROGRAMS = [
     "x = files([\n  'b.c',  # c1\n  'a.c',\n])\n",
     "x = f('--a', 'b', '--c', '--d', 'e', f)\n",
     "x = a[0][1].m()[2]\n",
+    "x = f(\n  a,\n)\nmessage('a single argument that is much longer than the maximal line length of eighty columns')\n",
 ]
 
 CORPUS_CFGS = [
